@@ -666,6 +666,23 @@ def r7_9(ctx):
             ctx.bad("R7.9", fi.module, fi.qual, "return before the test", "oneline() can return a text without testing it for a trailing literal announcement", g.nodes[skipped[0]].line)
         else:
             ctx.ok("R7.9", where(fi), f"result tested with {pat!r} on every path; {suffix!r} appended")
+    # ... and what oneline() returns goes into the line as it is: cut, stripped or sliced afterwards it can end in `{n}` again
+    n_use = 0
+    for f2 in p.functions.values():
+        par2 = None
+        for c in calls_in(f2.node):
+            if call_name(c) != "oneline" or not isinstance(c.func, ast.Name):
+                continue
+            par2 = par2 or parmap(f2)
+            n_use += 1
+            up = par2.get(c)
+            if isinstance(up, ast.Subscript) and up.value is c:
+                ctx.bad("R7.9", f2.module, f2.qual, norm(up, 70), "the result of oneline() is sliced before it goes into the response line: the cut can leave `{<digits>}` at the end of the line again (a literal announcement the client will wait on)", c.lineno)
+            elif isinstance(up, ast.Attribute) and up.value is c and up.attr in ("strip", "rstrip", "removesuffix", "replace", "split", "partition", "rpartition", "rsplit"):
+                ctx.bad("R7.9", f2.module, f2.qual, norm(up, 70), f"the result of oneline() is passed through .{up.attr}() before it goes into the response line: what was appended to keep the line from ending in `{{<digits>}}` can be removed again", c.lineno)
+            else:
+                ctx.ok("R7.9", where(f2), f"{norm(c, 40)} used as returned", nontrivial=False)
+    ctx.floor("R7.9", n_use, 6, "uses of oneline()")
 
 
 _NOT_ATOMS = ["X (Y", "A\r\nB", 'a"b', "a\\b", "a b", "a)b", "a(b", "{4}", "", "a\nb", "a\rb", "caf\xe9 x"]
